@@ -71,6 +71,7 @@ type followerRun struct {
 	sent   int64
 	// the last Y / Q step found nothing to sync (no macro of the model corresponds to it)
 	skipped bool
+	why     string
 }
 
 func (fr *followerRun) headOffset() int64 {
@@ -101,8 +102,34 @@ func (fr *followerRun) expectedCommit() int64 {
 }
 
 func (fr *followerRun) exec(o *hx.Out, s fstep) bool {
+	fr.why = ""
 	ok := fr.exec0(o, s)
-	return waitLive(fr.n, stepTimeout, followerQuiescent) && ok
+	if !ok && fr.why == "" {
+		fr.why = "the step's own completion condition"
+	}
+	if !waitLive(fr.n, stepTimeout, followerQuiescent) {
+		if fr.why == "" {
+			fr.why = "the follower's sync/apply loops do not come to rest:\n" + loopStacks()
+		}
+		return false
+	}
+	return ok
+}
+
+func loopStacks() string {
+	buf := make([]byte, 1<<20)
+	n := runtime.Stack(buf, true)
+	var res []string
+	for _, g := range strings.Split(string(buf[:n]), "\n\n") {
+		if strings.Contains(g, "followerController).applyAllCommittedEntries") || strings.Contains(g, "followerController).handleReplicateSync") {
+			l := strings.Split(g, "\n")
+			if len(l) > 9 {
+				l = l[:9]
+			}
+			res = append(res, strings.Join(l, " | "))
+		}
+	}
+	return strings.Join(res, "\n")
 }
 
 func (fr *followerRun) exec0(o *hx.Out, s fstep) bool {
@@ -135,6 +162,7 @@ func (fr *followerRun) exec0(o *hx.Out, s fstep) bool {
 	case "N":
 		fr.term++
 		if _, err := fr.fc.NewTerm(&proto.NewTermRequest{Namespace: ns, Shard: shardId, Term: fr.term}); err != nil {
+			fr.why = "NewTerm: " + err.Error()
 			return false
 		}
 		fr.newStream()
@@ -284,7 +312,7 @@ func runFollowerCase(o *hx.Out, p params) (string, int64) {
 					p.String(), c, i, fr.maxAdv, sched))
 			}
 			if !ok && !n.clk.isCrashed() {
-				stuck = fmt.Sprintf("step %d (%s) of [%s] did not complete", i, s.kind, sched)
+				stuck = fmt.Sprintf("step %d (%s) of [%s] did not complete (%s)", i, s.kind, sched, fr.why)
 				break
 			}
 		}
